@@ -321,9 +321,10 @@ func (w *World) monAckAfterAccept(h []ev) {
 // C07: each QoS 2 message of a publisher session is handed to the backend at most once, and
 // exactly once when its PUBCOMP was sent; every PUBREL is answered
 func (w *World) monQos2Once(h []ev) {
-	count := map[string]int{}   // clientID|tag -> bpublish count of QoS2 messages
-	comp := map[string]bool{}   // clientID|tag -> PUBCOMP sent
-	byID := map[string]string{} // clientID|id -> tag of the open QoS 2 handshake
+	count := map[string]int{}      // clientID|tag -> bpublish count of QoS2 messages
+	comp := map[string]bool{}      // clientID|tag -> PUBCOMP sent
+	byID := map[string]string{}    // clientID|id -> tag of the open QoS 2 handshake
+	offered := map[string]string{} // connection|id -> tag of a QoS 2 PUBLISH the peer sent
 	cid := func(c int) string {
 		if p := w.peers[c]; p != nil {
 			return p.clientID
@@ -353,7 +354,9 @@ func (w *World) monQos2Once(h []ev) {
 			switch p := e.pkt.(type) {
 			case *packet.Publish:
 				if p.Message.QOS == 2 && len(p.Message.Payload) > 0 {
-					byID[fmt.Sprintf("%s|%d", cid(e.conn), p.ID)] = string(p.Message.Payload)
+					// the handshake only exists once the broker has answered with PUBREC (the PUBLISH may have been sent into a
+					// connection that was already gone)
+					offered[fmt.Sprintf("%d|%d", e.conn, p.ID)] = string(p.Message.Payload)
 				}
 			case *packet.Pubrel:
 				if w.peers[e.conn] != nil && w.peers[e.conn].connected {
@@ -398,6 +401,11 @@ func (w *World) monQos2Once(h []ev) {
 				}
 			}
 		case "sent":
+			if q, ok := e.pkt.(*packet.Pubrec); ok {
+				if tag, ok := offered[fmt.Sprintf("%d|%d", e.conn, q.ID)]; ok {
+					byID[fmt.Sprintf("%s|%d", cid(e.conn), q.ID)] = tag
+				}
+			}
 			if q, ok := e.pkt.(*packet.Pubcomp); ok {
 				if pendingRel[e.conn] != nil {
 					delete(pendingRel[e.conn], q.ID)
